@@ -5,7 +5,7 @@ CONSTANTS
   MaxInsts = 1
   MaxCalls = 1
   Lens = {0, 3}
-  Features = {{}, {"sse"}, {"avx"}, {"avx", "sse"}}
+  Features = {{}, {"sse"}, {"avx", "sse"}}
   Masks = {0, 1, 7, 15}
   MCElems = {"f32", "fp"}
 INVARIANT MCInv
